@@ -483,6 +483,98 @@ func evLineLong(t *Tracer, lon0, lat0, alt0, lon1, lat1, alt1 float64, H, V int6
 	t.Emit(e, true)
 }
 
+// evLineTouch: a segment one of whose end points has longitude exactly +180 (see TraceOps.X_LineTouch).
+func evLineTouch(t *Tracer, lon0, lat0, alt0, lon1, lat1, alt1 float64, H, V int64) {
+	p0, err0 := object.NewPoint(lon0, lat0, alt0)
+	p1, err1 := object.NewPoint(lon1, lat1, alt1)
+	if err0 != nil || err1 != nil {
+		return
+	}
+	o, res := guard(func() (any, error) { return shape.GetExtendedSpatialIdsOnLine(p0, p1, H, V) })
+	e := absW.ev("LineTouch", map[string]any{"p0": hexTriple(lon0, lat0, alt0), "p1": hexTriple(lon1, lat1, alt1), "H": H, "V": V,
+		"off": []any{}, "n": 0, "distinct": 0})
+	e.O = o
+	e.R = []any{}
+	if o != "ok" {
+		e.Bad = "outcome " + o
+		t.Emit(e, true)
+		return
+	}
+	a := [3]float64{p0.Lon(), p0.Lat(), p0.Alt()}
+	d := [3]float64{p1.Lon() - a[0], p1.Lat() - a[1], p1.Alt() - a[2]}
+	meets := func(id ID, turn float64) bool {
+		lo := [3]float64{gammaLon(id.X, H) + turn, gammaLat(id.Y+1, H), gammaAlt(id.F, V)}
+		hi := [3]float64{gammaLon(id.X+1, H) + turn, gammaLat(id.Y, H), gammaAlt(id.F+1, V)}
+		t0, t1 := 0.0, 1.0
+		for i := 0; i < 3; i++ {
+			eps := 0.002*(hi[i]-lo[i]) + 1e-10
+			l, h := lo[i]-eps, hi[i]+eps
+			if d[i] == 0 {
+				if a[i] < l || a[i] > h {
+					return false
+				}
+				continue
+			}
+			ta, tb := (l-a[i])/d[i], (h-a[i])/d[i]
+			if ta > tb {
+				ta, tb = tb, ta
+			}
+			t0, t1 = math.Max(t0, ta), math.Min(t1, tb)
+		}
+		return t0 <= t1
+	}
+	seen := map[string]struct{}{}
+	var offs []string
+	for _, s := range strs(res) {
+		seen[s] = struct{}{}
+		id, ok := ParseExt(s)
+		if !ok || id.H != H || id.V != V {
+			e.Bad = "malformed or wrong zoom: " + s
+			continue
+		}
+		if !meets(id, 0) && !meets(id, 360) && !meets(id, -360) {
+			offs = append(offs, s)
+		}
+	}
+	sort.Strings(offs)
+	off := []any{}
+	for i, s := range offs {
+		if i < 10 {
+			off = append(off, s)
+		}
+	}
+	e.A["off"], e.A["n"], e.A["distinct"] = off, len(strs(res)), len(seen)
+	t.Emit(e, true)
+}
+
+// driveLineTouch: segments from longitude exactly +180 (tracks normalised to (-180, 180], data cut at the antimeridian)
+func driveLineTouch(t *Tracer, r Rng, k int) {
+	for i := 0; i < k; i++ {
+		H, V := r.In(2, 11), r.In(0, 25)
+		lat := float64(r.In(-8000, 8000)) / 100
+		alt := float64(r.In(-100, 2000))
+		var lon1 float64
+		switch r.Intn(3) {
+		case 0: // the other end in the first column, just across the antimeridian
+			lon1 = -180 + 360/math.Ldexp(1, int(H))*r.Float64()
+		case 1: // the other end in the last column
+			lon1 = 180 - 360/math.Ldexp(1, int(H))*r.Float64()
+		default:
+			lon1 = -180 + 360*r.Float64()
+		}
+		lat1 := lat
+		if r.Chance(0.5) {
+			lat1 = lat + float64(r.In(-300, 300))/100
+		}
+		alt1 := alt + float64(r.In(-50, 400))
+		if r.Chance(0.5) {
+			evLineTouch(t, 180, lat, alt, lon1, lat1, alt1, H, V)
+		} else {
+			evLineTouch(t, lon1, lat1, alt1, 180, lat, alt, H, V)
+		}
+	}
+}
+
 // driveLongOblique: long segments in general position, in pairs between the same two end voxels (the
 // second leg enters and leaves the end voxels at other places, so it runs about a voxel beside the first)
 func driveLongOblique(t *Tracer, r Rng, k int) {
@@ -527,6 +619,7 @@ func driveLongLines(t *Tracer, r Rng, k int) {
 
 func driveLine(t *Tracer, r Rng, n int) {
 	if n >= 100 {
+		driveLineTouch(t, r, n/60)
 		driveLongLines(t, r, n/300)
 	}
 	fb := math.Float64frombits
